@@ -21,6 +21,14 @@
 //!                                       -> calls=<key:msg,…|-> done=<bool> [held= fin= rx=]
 //!   seq <key>                    what the subscriber received under <key>        -> o,o,…|-
 //!   dispatch <ad> <dead> <subs> <batch>   (v2 build) real dispatch_batch         -> trace | keys
+//!   drop                         drop the OutputPort (the last sender; v1: also the JoinHandles,
+//!                                which detaches the forwarding tasks)            -> ok
+//!                                afterwards: pub / sub -> closed; a grant must end with done=true
+//!
+//! converter `echo`: identity which, when called with an original message m (m < ECHO_BASE,
+//! m % 4 == 0), publishes m + ECHO_BASE*(key+1) on the very same port from INSIDE the converter
+//! call (through a `Weak`): a publication landing in the middle of a poll of the port task /
+//! forwarding task.
 //!
 //! usage: outport --seed S --cases N --out DIR [--replay-ops f1,f2 --only-replay 1]
 
@@ -31,6 +39,7 @@ use ractor::{Actor, ActorProcessingErr, ActorRef, OutputPort};
 
 const V2: bool = cfg!(feature = "outport-v2");
 const CONVS: [&str; 6] = ["all", "even", "odd", "none", "dbl", "m3"];
+const ECHO_BASE: u64 = 100_000;
 
 fn conv(kind: &str, m: u64) -> Option<u64> {
     match kind {
@@ -39,11 +48,32 @@ fn conv(kind: &str, m: u64) -> Option<u64> {
         "odd" => (m % 2 == 1).then_some(m),
         "none" => None,
         "dbl" => Some(2 * m),
+        "echo" => Some(m),
         _ => (m % 3 == 0).then_some(m + 1000),
     }
 }
 
 type Received = Arc<Mutex<Vec<(u64, u64)>>>;
+
+/// every converter call `(key, msg)` of the running case, in call order
+static CALLS: Mutex<Vec<(u64, u64)>> = Mutex::new(Vec::new());
+/// key of the (single) subscription of the case made through `OutputPortSubscriberTrait`
+/// publications made from inside a converter call (statistics)
+static REPUBS: std::sync::atomic::AtomicU64 = std::sync::atomic::AtomicU64::new(0);
+static FROM_KEY: std::sync::atomic::AtomicU64 = std::sync::atomic::AtomicU64::new(u64::MAX);
+
+/// the recorder actors' message: `(subscription key, converted value)`
+struct RMsg(u64, u64);
+
+/// `ActorRef<O>: OutputPortSubscriberTrait<I>` needs `O: From<I>`; its converter is
+/// `|msg| Some(O::from(msg))`, so this `from` IS the converter call of that subscription
+impl From<u64> for RMsg {
+    fn from(m: u64) -> Self {
+        let k = FROM_KEY.load(std::sync::atomic::Ordering::SeqCst);
+        CALLS.lock().unwrap().push((k, m));
+        RMsg(k, m)
+    }
+}
 
 struct Recorder;
 
@@ -51,7 +81,7 @@ struct Recorder;
 type RecorderArgs = (Received, Option<tokio::sync::oneshot::Receiver<()>>);
 
 impl Actor for Recorder {
-    type Msg = (u64, u64);
+    type Msg = RMsg;
     type State = Received;
     type Arguments = RecorderArgs;
     async fn pre_start(&self, _: ActorRef<Self::Msg>, a: RecorderArgs) -> Result<Received, ActorProcessingErr> {
@@ -61,7 +91,7 @@ impl Actor for Recorder {
         Ok(a.0)
     }
     async fn handle(&self, _: ActorRef<Self::Msg>, m: Self::Msg, st: &mut Received) -> Result<(), ActorProcessingErr> {
-        st.lock().unwrap().push(m);
+        st.lock().unwrap().push((m.0, m.1));
         Ok(())
     }
 }
@@ -88,9 +118,8 @@ fn show_list(v: &[u64]) -> String {
 
 struct World {
     ctl: Arc<ractor::verif::Controller>,
-    port: Option<OutputPort<u64>>,
-    actors: Vec<(ActorRef<(u64, u64)>, Received)>,
-    calls: Arc<Mutex<Vec<(u64, u64)>>>,
+    port: Option<Arc<OutputPort<u64>>>,
+    actors: Vec<(ActorRef<RMsg>, Received)>,
     /// gates of the actors still held in `pre_start`
     gates: Vec<Option<tokio::sync::oneshot::Sender<()>>>,
     /// controller tasks that are subscriber actors' message loops (an actor released from
@@ -125,8 +154,10 @@ impl World {
         settle().await;
         let ctl = ractor::verif::install();
         // v2: `default()` spawns the port task (controller task 0)
-        let port = OutputPort::<u64>::default();
-        World { ctl, port: Some(port), actors, gates, actor_tasks: vec![], calls: Arc::new(Mutex::new(Vec::new())), tasks: Default::default(), npub: 0, last_grant: Default::default() }
+        let port = Arc::new(OutputPort::<u64>::default());
+        CALLS.lock().unwrap().clear();
+        FROM_KEY.store(u64::MAX, std::sync::atomic::Ordering::SeqCst);
+        World { ctl, port: Some(port), actors, gates, actor_tasks: vec![], tasks: Default::default(), npub: 0, last_grant: Default::default() }
     }
 
     /// subscriber actors are not under test: whenever one of their (gated) loops can run, it runs
@@ -165,7 +196,7 @@ impl World {
                 st.bump("v1_grant_backlog_over_16");
             }
         }
-        self.calls.lock().unwrap().clear();
+        CALLS.lock().unwrap().clear();
         let mut rounds = 0;
         loop {
             if t.is_done() {
@@ -178,8 +209,12 @@ impl World {
                 break;
             }
         }
-        let c = self.calls.lock().unwrap().clone();
+        let c = CALLS.lock().unwrap().clone();
         st.add("converter_calls", c.len() as u64);
+        if self.port.is_none() && rounds > 0 {
+            st.bump("grant_after_drop_ran");
+            st.add("converter_calls_after_drop", c.len() as u64);
+        }
         if rounds > 0 && t.is_done() {
             st.bump("grant_task_ended");
         }
@@ -201,8 +236,17 @@ impl World {
         match w.as_slice() {
             ["pub", m] => {
                 st.bump("pub");
+                let Some(port) = self.port.as_ref() else { return "closed".into() };
                 self.npub += 1;
-                self.port.as_ref().unwrap().send(m.parse().unwrap());
+                port.send(m.parse().unwrap());
+                "ok".into()
+            }
+            ["drop"] => {
+                st.bump("drop");
+                if let Some(p) = self.port.take() {
+                    assert_eq!(Arc::strong_count(&p), 1, "the harness holds the only handle");
+                    drop(p);
+                }
                 "ok".into()
             }
             ["sub", key, actor, kind] => {
@@ -210,12 +254,35 @@ impl World {
                 let key: u64 = key.parse().unwrap();
                 let a: usize = actor.parse().unwrap();
                 let kind = kind.to_string();
-                let calls = self.calls.clone();
                 let before = self.ctl.len();
-                self.port.as_ref().unwrap().subscribe(self.actors[a].0.clone(), move |m: u64| {
-                    calls.lock().unwrap().push((key, m));
-                    conv(&kind, m).map(|o| (key, o))
+                let Some(port) = self.port.as_ref() else { return "closed".into() };
+                let weak = Arc::downgrade(port);
+                let echo = kind == "echo";
+                if echo {
+                    st.bump("sub_echo");
+                }
+                if kind == "from" {
+                    // the public trait-object route: `Box<dyn OutputPortSubscriberTrait<u64>>`
+                    if FROM_KEY.load(std::sync::atomic::Ordering::SeqCst) != u64::MAX {
+                        return "bad-op".into();
+                    }
+                    st.bump("sub_from_trait");
+                    FROM_KEY.store(key, std::sync::atomic::Ordering::SeqCst);
+                    let b: ractor::port::OutputPortSubscriber<u64> = Box::new(self.actors[a].0.clone());
+                    b.subscribe_to_port(port);
+                } else {
+                port.subscribe(self.actors[a].0.clone(), move |m: u64| {
+                    CALLS.lock().unwrap().push((key, m));
+                    if echo && m < ECHO_BASE && m % 4 == 0 {
+                        // a publication from inside the converter call = in the middle of the poll
+                        if let Some(p) = weak.upgrade() {
+                            p.send(m + ECHO_BASE * (key + 1));
+                            REPUBS.fetch_add(1, std::sync::atomic::Ordering::SeqCst);
+                        }
+                    }
+                    conv(&kind, m).map(|o| RMsg(key, o))
                 });
+                }
                 #[cfg(not(feature = "outport-v2"))]
                 {
                     assert_eq!(self.ctl.len(), before + 1, "subscribe spawns exactly one forwarding task");
@@ -264,7 +331,7 @@ impl World {
                     Some(id) => {
                         let r = self.grant(id, st).await;
                         #[cfg(not(feature = "outport-v2"))]
-                        let r = format!("{r} {}", self.v1_counts());
+                        let r = if self.port.is_some() { format!("{r} {}", self.v1_counts()) } else { r };
                         r
                     }
                 }
@@ -353,6 +420,13 @@ fn gen_case(rng: &mut Rng, n: u64) -> Vec<String> {
     let burst_max = *rng.pick(&[3u64, 3, 8, 20, 40, 70]);
     let grant_w = *rng.pick(&[5u64, 15, 30]);
     let stop_w = *rng.pick(&[0u64, 2, 2, 8]);
+    // a third of the cases have re-entrant converters (on actor 0, which is then never stopped:
+    // a v1 task whose cast is rejected in the very call that published is finer than a model step)
+    let echo_case = rng.chance(1, 3);
+    // a third of the cases drop the port somewhere in the second half
+    let drop_at = if rng.chance(1, 3) { Some(rng.range(steps / 2, steps - 1)) } else { None };
+    let mut dropped = false;
+    let mut from_used = false;
     let grant_all = |ops: &mut Vec<String>, keys: &[u64], rng: &mut Rng| {
         if V2 {
             ops.push("grant port".into());
@@ -364,9 +438,23 @@ fn gen_case(rng: &mut Rng, n: u64) -> Vec<String> {
             }
         }
     };
-    for _ in 0..steps {
+    for step in 0..steps {
+        if drop_at == Some(step) {
+            ops.push("drop".into());
+            dropped = true;
+        }
         let k = rng.below(100);
-        if k < 30 {
+        if dropped && k < 50 && rng.chance(4, 5) {
+            // after the drop mostly let the tasks run
+            if V2 {
+                ops.push("grant port".into());
+            } else if !keys.is_empty() {
+                ops.push(format!("grant {}", rng.pick(&keys)));
+            }
+        } else if dropped && keys.is_empty() {
+            ops.push(format!("pub {next_msg}"));
+            next_msg += 1;
+        } else if k < 30 {
             let b = rng.range(1, burst_max);
             for _ in 0..b {
                 ops.push(format!("pub {next_msg}"));
@@ -374,13 +462,24 @@ fn gen_case(rng: &mut Rng, n: u64) -> Vec<String> {
             }
         } else if k < 50 || keys.is_empty() {
             let key = keys.len() as u64;
-            let kind = if rng.chance(1, 2) { "all" } else { *rng.pick(&CONVS) };
-            ops.push(format!("sub {key} {} {kind}", rng.below(nactors)));
-            keys.push(key);
+            if echo_case && rng.chance(1, 3) {
+                ops.push(format!("sub {key} 0 echo"));
+            } else if !from_used && rng.chance(1, 6) {
+                from_used = true;
+                ops.push(format!("sub {key} {} from", rng.below(nactors)));
+            } else {
+                let kind = if rng.chance(1, 2) { "all" } else { *rng.pick(&CONVS) };
+                ops.push(format!("sub {key} {} {kind}", rng.below(nactors)));
+            }
+            if !dropped {
+                keys.push(key);
+            }
         } else if k < 50 + stop_w {
             // an actor that is still starting cannot be stopped gracefully: only released ones
             let a = rng.below(nactors);
-            if !held.contains(&a) {
+            if echo_case && a == 0 {
+                // never stopped
+            } else if !held.contains(&a) {
                 ops.push(format!("stop {a}"));
             } else if rng.chance(1, 2) {
                 held.retain(|x| *x != a);
@@ -402,6 +501,9 @@ fn gen_case(rng: &mut Rng, n: u64) -> Vec<String> {
     // what everybody has at an arbitrary point, then at quiescence
     for k in &keys {
         ops.push(format!("seq {k}"));
+    }
+    if !dropped && rng.chance(1, 5) {
+        ops.push("drop".into());
     }
     if rng.chance(1, 2) {
         for a in held.drain(..) {
@@ -610,6 +712,7 @@ async fn main() {
             }
         }
     }
+    st.add("reentrant_pub_inside_converter_call", REPUBS.load(std::sync::atomic::Ordering::SeqCst));
     st.add("lines", log.lines);
     st.write_json(&std::path::Path::new(&out).join("stats.json"));
     log.finish();
